@@ -438,6 +438,26 @@ func (fr *frame) eval1(v ssa.Value) Val {
 				return v
 			}
 		}
+		if m.K == KPtr && strings.Contains(m.S, ".init#") && !fr.in.noInitHeap && (k.K == KStr || k.K == KInt) {
+			// a read-only table built by the package initialiser: its entries are
+			// exactly those the initialiser stored
+			if mt, _ := x.X.Type().Underlying().(*types.Map); mt != nil && fr.in.Prog.initHasRoot(m.S) {
+				path := m.S + "[" + k.String() + "]"
+				if _, written := fr.cur.get(path); !written {
+					v, present := fr.in.Prog.initCell(path)
+					if !present {
+						v = zeroVal(mt.Elem())
+					}
+					if k.Dep {
+						v.Dep = true
+					}
+					if x.CommaOk {
+						return Val{K: KTuple, Elems: []Val{v, {K: KBool, B: present, Dep: k.Dep}}}
+					}
+					return v
+				}
+			}
+		}
 		if m.K == KPtr && strings.Contains(m.S, "#") && (k.K == KStr || k.K == KInt) {
 			mt, _ := x.X.Type().Underlying().(*types.Map)
 			if mt != nil {
@@ -768,6 +788,60 @@ func (fr *frame) binop(x *ssa.BinOp) Val {
 		return Val{K: KBot}
 	}
 	dep := a.Dep || b.Dep
+	if _, isStruct := x.X.Type().Underlying().(*types.Struct); isStruct && (x.Op == token.EQL || x.Op == token.NEQ) {
+		// struct values are equal when all their (flattened) fields are
+		if leaves, ok := leafPaths(x.X.Type()); ok {
+			leaf := func(v Val, orig ssa.Value, suffix string, t types.Type) Val {
+				if c, isC := orig.(*ssa.Const); isC && c.Value == nil {
+					return zeroVal(t)
+				}
+				if v.K != KAgg {
+					return top
+				}
+				if c, ok := v.Agg[suffix]; ok && !c.Maybe {
+					return c.V
+				}
+				return fr.load(v.S+suffix, t)
+			}
+			allEq, known := true, true
+			for _, suffix := range leaves {
+				if strings.Contains(suffix, "$") || strings.Contains(suffix, "[*]") {
+					continue
+				}
+				t := typeAtSuffix(x.X.Type(), suffix)
+				if t == nil {
+					known = false
+					break
+				}
+				if isAggregate(t) {
+					continue
+				}
+				l, r := leaf(a, x.X, suffix, t), leaf(b, x.Y, suffix, t)
+				switch {
+				case l.K == KInt && r.K == KInt:
+					allEq = allEq && l.I.Cmp(r.I) == 0
+				case l.K == KStr && r.K == KStr:
+					allEq = allEq && l.S == r.S
+				case l.K == KBool && r.K == KBool:
+					allEq = allEq && l.B == r.B
+				case l.K == KFloat && r.K == KFloat:
+					allEq = allEq && l.F == r.F
+				default:
+					known = false
+				}
+				if !allEq {
+					break
+				}
+			}
+			if !allEq {
+				return Val{K: KBool, B: x.Op == token.NEQ, Dep: dep}
+			}
+			if known {
+				return Val{K: KBool, B: x.Op == token.EQL, Dep: dep}
+			}
+		}
+		return topDep(dep)
+	}
 	switch x.Op {
 	case token.EQL, token.NEQ, token.LSS, token.LEQ, token.GTR, token.GEQ:
 		bv := func(t bool) Val { return Val{K: KBool, B: t, Dep: dep} }
@@ -1636,4 +1710,45 @@ func (fr *frame) convertSeq(x *ssa.Convert, v Val) (Val, bool) {
 		return Val{K: KSlice, S: base, Len: n, Dep: v.Dep}, true
 	}
 	return Val{}, false
+}
+
+// typeAtSuffix: the type of the component of t named by a leaf suffix such as
+// ".variable.name" or "[2].x".
+func typeAtSuffix(t types.Type, suffix string) types.Type {
+	for suffix != "" {
+		switch u := t.Underlying().(type) {
+		case *types.Struct:
+			if suffix[0] != '.' {
+				return nil
+			}
+			rest := suffix[1:]
+			end := len(rest)
+			for i := 0; i < len(rest); i++ {
+				if rest[i] == '.' || rest[i] == '[' {
+					end = i
+					break
+				}
+			}
+			name := rest[:end]
+			var ft types.Type
+			for i := 0; i < u.NumFields(); i++ {
+				if u.Field(i).Name() == name {
+					ft = u.Field(i).Type()
+				}
+			}
+			if ft == nil {
+				return nil
+			}
+			t, suffix = ft, rest[end:]
+		case *types.Array:
+			i := strings.Index(suffix, "]")
+			if suffix[0] != '[' || i < 0 {
+				return nil
+			}
+			t, suffix = u.Elem(), suffix[i+1:]
+		default:
+			return nil
+		}
+	}
+	return t
 }
